@@ -209,7 +209,11 @@ def run(ctx):
             ro.execute("oa " + ("obs" if cmd == "read" else cmd))
         orig = ro.t
         lst = (lambda t: t.effects) if kind == "e" else (lambda t: t.conditions)
-        oarr = (lambda t: list(t.effect_order)) if kind == "e" else (lambda t: list(t.condition_order))
+        oarr_raw = (lambda t: list(t.effect_order)) if kind == "e" else (lambda t: list(t.condition_order))
+
+        def oarr(t):            # reading an order array that raises is reported like one that is no permutation
+            st_, v_ = common.outcome(oarr_raw, t)
+            return v_ if st_ == "ok" else ["raises " + str(v_)]
         st, twin = common.outcome(lambda: ro.tm.copy_trigger(lib.TS.trigger(orig)))
         if st != "ok":
             return
@@ -220,7 +224,8 @@ def run(ctx):
                 ro.execute("oa " + cmd)
             own_o = oarr(a)                 # the edited trigger's own order is read first (as any listing of both would)
             got_n, got_o = len(lst(b)), oarr(b)
-            ok = got_n == want_n and got_o == want_o and sorted(got_o) == list(range(got_n)) and sorted(own_o) == list(range(len(lst(a))))
+            ok = got_n == want_n and got_o == want_o and sorted(map(str, got_o)) == sorted(map(str, range(got_n))) and \
+                sorted(map(str, own_o)) == sorted(map(str, range(len(lst(a)))))
             R.case(key=("twin", kind, label) + tuple(pre) + ("|",) + tuple(post), nontrivial=True, tags=("op:order-array-twin",))
             if not ok:
                 rn.violation({"op": "order-array", "kind": kind, "clause": "order-perm", "how": "trigger and its copy"},
